@@ -345,7 +345,7 @@ def instruction_lemma(ctx, eng, ce, b, op, cb=None, haltbug=False):
     return out, pre_state, specs
 
 
-ASPECTS = {"C04": ["frame", "flow", "boundary"], "C05": ["regs", "flags", "mem", "frame", "cycles", "flow"],
+ASPECTS = {"C11": ["flow", "nopanic"], "C04": ["frame", "flow", "boundary"], "C05": ["regs", "flags", "mem", "frame", "cycles", "flow"],
            "C01": ["regs", "flags", "mem", "frame", "flow", "nopanic", "boundary"], "C02": ["cycles", "flow", "boundary"],
            "C03": ["accesses", "flow", "boundary"]}
 
